@@ -12,7 +12,7 @@ from .values import *
 
 INF = float('inf')
 DELETED = object()
-TAGS = ('view', 'zip', 'gen', 'objdict', 'lambda', 'builtin_method', 'slice', 'range', 'sdview', 'pymodule', 'closure', 'namedtuple')
+TAGS = ('chain', 'view', 'zip', 'gen', 'objdict', 'lambda', 'builtin_method', 'slice', 'range', 'sdview', 'pymodule', 'closure', 'namedtuple')
 
 
 class EndPath(Exception):
@@ -1446,6 +1446,18 @@ class Interp:
             raise EndPath('generator exhausted on an iteration path')
         if isinstance(it, tuple) and it and it[0] == 'range':
             return body_cb(env['$idx'])
+        if isinstance(it, tuple) and it and it[0] == 'chain':
+            # an arbitrary element of a concatenation is an arbitrary element of one of its parts
+            parts = it[1]
+            k = self.ctx.choice(len(parts), 'chain-part') if len(parts) > 1 else 0
+            part = parts[k]
+            conc = self.concrete_iter(part)
+            if conc is not None:
+                if not conc:
+                    raise EndPath('empty part of a chain')
+                j = self.ctx.choice(len(conc), 'chain-elem') if len(conc) > 1 else 0
+                return body_cb(conc[j])
+            return self.arbitrary_elements(part, st, env, body_cb)
         if ('iterate', type(it).__name__) in self.hooks:
             return self.hooks[('iterate', type(it).__name__)](self, it, st, env, body_cb)
         if isinstance(it, tuple) and it and isinstance(it[0], str) and ('iterate', it[0]) in self.hooks:
